@@ -1019,3 +1019,208 @@ Proof.
   - intros c [<-|[<-|[]]]; vm_compute; repeat split; discriminate.
   - vm_compute. reflexivity.
 Qed.
+
+(* ---------------------------------------------------------------- requests on a cache that already holds tiles *)
+
+(* whatever the cache holds when a request starts (partially cached meta tiles, with or without their main tile,
+   left behind by other configurations or by removals), every requested valid tile is either already cached or is
+   handed to a store call: the re-check under the lock looks at ALL tiles of the meta tile *)
+Lemma plan_with_cache_produces m has_meta minimize bulk cached (tiles : list coord) z plan :
+  mwf m -> (forall c, In c tiles -> valid_tile m c /\ snd c = z) ->
+  plan_with_cache m has_meta minimize bulk cached tiles = Some plan ->
+  forall c, In c tiles -> In c cached \/ In c (flat_map snd plan).
+Proof.
+  intros Hm Hall Hplan c Hc. unfold plan_with_cache in Hplan.
+  destruct (coord_mem c cached) eqn:Ec; [left; apply coord_mem_In; exact Ec|right].
+  set (unc := filter (fun c => negb (coord_mem c cached)) tiles) in *.
+  assert (Hcu : In c unc) by (apply filter_In; split; [exact Hc|rewrite Ec; reflexivity]).
+  assert (Hallu : forall c', In c' unc -> valid_tile m c' /\ snd c' = z)
+    by (intros c' H; apply filter_In in H; apply Hall; apply H).
+  destruct unc as [|u0 unc'] eqn:Eu; [destruct Hcu|]. rewrite <- Eu in *.
+  destruct (create_plan m has_meta minimize bulk unc) as [plan0|] eqn:E0; [|discriminate].
+  injection Hplan as <-.
+  pose proof (every_requested_tile_is_produced_lemma m has_meta minimize bulk unc z plan0 Hm Hallu E0 c Hcu) as Hin.
+  apply in_flat_map in Hin. destruct Hin as (st & Hst & Hcst).
+  apply in_flat_map. exists st. split; [|exact Hcst].
+  apply filter_In. split; [exact Hst|].
+  unfold all_cached. destruct (forallb (fun c0 => coord_mem c0 cached) (snd st)) eqn:Ef; [|reflexivity].
+  rewrite forallb_forall in Ef. specialize (Ef c Hcst). congruence.
+Qed.
+
+Lemma dedup_meta_In m tiles : forall seen mt,
+  In mt (dedup_meta m tiles seen) -> exists x y z, In (x, y, z) tiles /\ mt = meta_tile m x y z.
+Proof.
+  induction tiles as [|[[tx ty] tz] tiles IH]; intros seen mt Hin; [destruct Hin|].
+  cbn [dedup_meta] in Hin. destruct (coord_mem (main_tile m tx ty tz) seen).
+  - destruct (IH _ _ Hin) as (x & y & z & H1 & H2). exists x, y, z. split; [right; exact H1|exact H2].
+  - destruct Hin as [<-|Hin]; [exists tx, ty, tz; split; [left; reflexivity|reflexivity]|].
+    destruct (IH _ _ Hin) as (x & y & z & H1 & H2). exists x, y, z. split; [right; exact H1|exact H2].
+Qed.
+
+(* meta_stores_all: in the meta tile strategy every creation step makes exactly one upstream request, that of the
+   meta tile of one of the requested tiles, and its store call receives all tiles of that meta tile's pattern
+   (by pattern_complete / pattern_unique: exactly the valid tiles of the block, once each) *)
+Lemma meta_stores_all_lemma m minimize (tiles : list coord) plan st :
+  minimize && (1 <? Z.of_nat (length tiles)) = false ->
+  create_plan m true minimize false tiles = Some plan -> In st plan ->
+  exists x y z, In (x, y, z) tiles /\
+    st = ([(mt_bbox (meta_tile m x y z), mt_size (meta_tile m x y z))], mt_tiles (meta_tile m x y z)).
+Proof.
+  intros Hmin Hplan Hst. unfold create_plan in Hplan. cbn [negb] in Hplan. rewrite Hmin in Hplan.
+  injection Hplan as <-. apply in_map_iff in Hst. destruct Hst as (mt & <- & Hmt).
+  destruct (dedup_meta_In m tiles [] mt Hmt) as (x & y & z & Hin & ->). exists x, y, z. split; [exact Hin|reflexivity].
+Qed.
+
+(* the same for all four bands of a colour picture: what is stored is a copy of the upstream pixel or the background *)
+Lemma meta_colour_equals_single m q tr cx cy z j k :
+  mwf m -> valid_level (mg_grid m) z = true -> 0 < q ->
+  0 <= cx < fst (grid_size (mg_grid m) z) -> 0 <= cy < snd (grid_size (mg_grid m) z) ->
+  no_buffer_cut m cx cy z ->
+  0 <= j < tw (mg_grid m) -> 0 <= k < th (mg_grid m) ->
+  model_colour m q HowMeta tr (cx, cy, z) j k = model_colour m q HowSingle tr (cx, cy, z) j k.
+Proof.
+  intros. unfold model_colour. rewrite (meta_equals_single_lemma m q cx cy z j k) by assumption. reflexivity.
+Qed.
+
+Example plan_with_cache_example :
+  (* the block of main tile (0,0) is cached except (1,0,0): one request for the whole meta tile, all four tiles stored *)
+  let m := mkMG (mkGrid 0 0 320 160 8 8 [10] false 115 100 4 1) 2 2 0 in
+  plan_with_cache m true false false [(0, 1, 0); (1, 1, 0); (0, 0, 0)] [(1, 0, 0); (0, 1, 0)] =
+    Some [([((0, 0, 160, 160), (16, 16))], [(0, 1, 0); (1, 1, 0); (0, 0, 0); (1, 0, 0)])].
+Proof. vm_compute. reflexivity. Qed.
+
+(* ---------------------------------------------------------------- where a stored pixel samples the picture *)
+
+(* the top or the bottom edge of the requested bbox is a whole number of pixels away from the top edge of every tile
+   of the pattern (the tile lattice starts at the bottom of the grid bbox for 'll' grids, at the top for 'ul' grids) *)
+Lemma vertical_lattice m x y z :
+  mwf m -> valid_level (mg_grid m) z = true ->
+  let mt := meta_tile m x y z in
+  let g := mg_grid m in
+  let '(minx, miny, maxx, maxy) := mt_bbox mt in
+  forall cx cy cz crop, In (Some (cx, cy, cz), crop) (mt_pattern mt) ->
+    let '(tx0, ty0, tx1, ty1) := tile_bbox g cx cy cz in
+    (exists N, ty1 - miny = N * res_at g z) \/ (exists N, maxy - ty1 = N * res_at g z).
+Proof.
+  intros Hm Hv. cbv zeta.
+  pose proof (main_tile_contains m x y z Hm) as Hc.
+  destruct (main_tile m x y z) as [[x0 y0] z0] eqn:Hmain.
+  destruct (meta_size m z) as [sx sy] eqn:Hms. destruct Hc as (-> & Hc).
+  destruct (buffered_bbox m (unbuffered_meta_bbox m x0 y0 z) z true) as [[[[minx miny] maxx] maxy] [[[b0 b1] b2] b3]] eqn:Hb.
+  pose proof (meta_tile_unfold m x y z x0 y0 sx sy _ _ Hm Hmain Hms Hb) as Hunf.
+  destruct (mt_bbox (meta_tile m x y z)) as [[[qa qb] qc] qd] eqn:Ebb.
+  intros cx cy cz crop Hin.
+  apply (meta_tile_pattern_In m x y z x0 y0 sx sy _ b0 b1 b2 b3 _ Hm Hmain Hms Hb) in Hin.
+  rewrite Hunf in Ebb. cbn [mt_bbox] in Ebb. injection Ebb as <- <- <- <-.
+  destruct Hin as (i & j & Hi & Hj & Heq).
+  injection Heq as Ht _. symmetry in Ht. apply tile_or_none_Some in Ht. destruct Ht as (Ht & _).
+  injection Ht as -> -> ->.
+  rewrite (unbuffered_meta_bbox_eq m x0 y0 z sx sy Hm Hv Hms) in Hb.
+  destruct (block_bbox (mg_grid m) x0 y0 sx sy z) as [[[ba bb_] bc] bd] eqn:Hblock.
+  assert (HB : 0 <= mbuf m) by apply Hm.
+  pose proof (buffered_sides m ba bb_ bc bd z _ _ _ _ _ HB Hb) as (_ & S2 & _ & S4). cbv zeta in S2, S4.
+  set (g := mg_grid m) in *. set (r := res_at g z) in *. set (B := mbuf m) in *.
+  unfold block_bbox in Hblock. fold g r in Hblock. unfold tile_bbox, block_row. fold g r.
+  destruct (ul g); injection Hblock as <- <- <- <-.
+  - right. destruct S4 as [->| ->].
+    + exists ((y0 + i) * th g). lia.
+    + exists (i * th g + B). lia.
+  - left. destruct S2 as [->| ->].
+    + exists ((y0 + sy - 1 - i + 1) * th g). lia.
+    + exists ((sy - 1 - i + 1) * th g + B). lia.
+Qed.
+
+Lemma tile_pixel_src_Some px py tw_ th_ W H j k c rr :
+  tile_pixel_src (px, py) (tw_, th_) (W, H) j k = Some (c, rr) ->
+  c = px + j /\ rr = py + k /\ 0 <= c < W /\ 0 <= rr < H.
+Proof.
+  unfold tile_pixel_src, get_tile_rect. cbn [fst snd].
+  destruct ((px <? 0) || (py <? 0) || (W <? px + tw_) || (H <? py + th_)) eqn:E.
+  - match goal with |- (if ?b then _ else _) = _ -> _ => destruct b eqn:E2; [|discriminate] end.
+    intros Hs. injection Hs as <- <-. lia.
+  - match goal with |- (if ?b then _ else _) = _ -> _ => destruct b eqn:E2; [|discriminate] end.
+    intros Hs. injection Hs as <- <-. lia.
+Qed.
+
+(* stored_pixel_within_one_pixel: a pixel of a tile cut out of a meta tile - whatever is cut off at the grid border -
+   that is not padding shows the upstream picture at a ground position that differs from the position the same
+   pixel of the tile fetched alone samples (the centre of the pixel) by at most half a pixel horizontally and at
+   most one pixel vertically.  Positions scaled by 2W resp. 2H:
+   X_meta = minx + (2c+1)(maxx-minx)/(2W),  X_alone = tx0 + (2j+1) r/2,
+   Y_meta = maxy - (2rr+1)(maxy-miny)/(2H), Y_alone = ty1 - (2k+1) r/2 *)
+Lemma stored_pixel_within_one_pixel_lemma m x y z cx cy cz px py j k c rr :
+  mwf m -> valid_level (mg_grid m) z = true ->
+  In (Some (cx, cy, cz), (px, py)) (mt_pattern (meta_tile m x y z)) ->
+  tile_pixel_src (px, py) (tw (mg_grid m), th (mg_grid m)) (mt_size (meta_tile m x y z)) j k = Some (c, rr) ->
+  let r := res_at (mg_grid m) z in
+  let '(minx, miny, maxx, maxy) := mt_bbox (meta_tile m x y z) in
+  let '(W, H) := mt_size (meta_tile m x y z) in
+  let '(tx0, ty0, tx1, ty1) := tile_bbox (mg_grid m) cx cy cz in
+  - (W * r) <= (2 * c + 1) * (maxx - minx) + 2 * W * minx - W * (2 * tx0 + (2 * j + 1) * r) <= W * r /\
+  - (2 * H * r) <= 2 * H * maxy - (2 * rr + 1) * (maxy - miny) - H * (2 * ty1 - (2 * k + 1) * r) <= 2 * H * r.
+Proof.
+  intros Hm Hv Hin Hsrc. cbv zeta.
+  pose proof (pattern_truncated_lemma m x y z Hm Hv) as Ht. cbv zeta in Ht.
+  pose proof (vertical_lattice m x y z Hm Hv) as Hl. cbv zeta in Hl.
+  destruct (mt_bbox (meta_tile m x y z)) as [[[minx miny] maxx] maxy].
+  destruct (mt_size (meta_tile m x y z)) as [W H]. cbn [fst snd] in Ht.
+  destruct Ht as ((HW & HH) & Ht). specialize (Ht cx cy cz px py Hin). specialize (Hl cx cy cz (px, py) Hin).
+  assert (Hcz : cz = z).
+  { pose proof (main_tile_contains m x y z Hm) as Hc.
+    destruct (main_tile m x y z) as [[x0 y0] z0] eqn:Hmain. destruct (meta_size m z) as [sx sy] eqn:Hms.
+    destruct Hc as (-> & _).
+    destruct (buffered_bbox m (unbuffered_meta_bbox m x0 y0 z) z true) as [bb [[[b0 b1] b2] b3]] eqn:Hb.
+    apply (meta_tile_pattern_In m x y z x0 y0 sx sy bb b0 b1 b2 b3 _ Hm Hmain Hms Hb) in Hin.
+    destruct Hin as (i & j' & _ & _ & Heq). injection Heq as Ht' _ _. symmetry in Ht'.
+    apply tile_or_none_Some in Ht'. destruct Ht' as (Ht' & _). injection Ht' as _ _ ->. reflexivity. }
+  subst cz.
+  destruct (tile_bbox (mg_grid m) cx cy z) as [[[tx0 ty0] tx1] ty1].
+  destruct Ht as (Hpx & Hpy).
+  pose proof (res_at_pos (mg_grid m) z (proj1 Hm) Hv) as Hr.
+  apply tile_pixel_src_Some in Hsrc. destruct Hsrc as (-> & -> & Hc & Hrr).
+  clear Hin Hv Hm. set (r := res_at (mg_grid m) z) in *. clearbody r.
+  split.
+  - set (Dx := maxx - minx - W * r) in *.
+    assert (E : (2 * (px + j) + 1) * (maxx - minx) + 2 * W * minx - W * (2 * tx0 + (2 * j + 1) * r)
+                = (2 * (px + j) + 1) * Dx) by (unfold Dx; nia).
+    rewrite E. assert (HDx : - r <= 2 * Dx <= r) by (unfold Dx; lia). clearbody Dx.
+    set (a := 2 * (px + j) + 1) in *. assert (Ha : 1 <= a <= 2 * W - 1) by (unfold a; lia). clearbody a.
+    assert (P : - (a * r) <= 2 * (a * Dx) <= a * r) by (clear - HDx Ha Hr; nia).
+    assert (Q : a * r <= 2 * W * r - r) by (clear - Ha Hr; nia). lia.
+  - set (e := py * r - (maxy - ty1)) in *. set (Dy := maxy - miny - H * r) in *.
+    assert (F : 2 * H * maxy - (2 * (py + k) + 1) * (maxy - miny) - H * (2 * ty1 - (2 * k + 1) * r)
+                = - ((2 * (py + k) + 1) * Dy) - 2 * H * e) by (unfold Dy, e; nia).
+    rewrite F. assert (HD : - r <= 2 * Dy <= r) by (unfold Dy; lia).
+    set (a := 2 * (py + k) + 1) in *. assert (Ha : 1 <= a <= 2 * H - 1) by (unfold a; lia).
+    destruct Hl as [(N & HN)|(N & HN)].
+    + (* the bottom edge is on the lattice: Dy = t * r - e for an integer t *)
+      set (t := py + N - H). assert (HDy : Dy = t * r - e) by (unfold Dy, t, e; nia).
+      clearbody t a e Dy.
+      assert (Hb1 : 2 * (t * r) < 4 * r /\ - (4 * r) < 2 * (t * r)) by lia.
+      assert (Ht2 : -2 < t < 2) by (clear - Hb1 Hr; nia).
+      assert (Ht3 : t = -1 \/ t = 0 \/ t = 1) by lia.
+      assert (Q : 0 <= (2 * H - a) * r <= 2 * H * r - r) by (clear - Ha Hr; nia).
+      destruct Ht3 as [Et|[Et|Et]]; subst t.
+      * assert (He2 : - r < e /\ 2 * e <= - r) by lia.
+        assert (P : - ((2 * H - a) * r) <= (2 * H - a) * e <= 0) by (clear - He2 Ha Hr; nia).
+        rewrite HDy. lia.
+      * assert (He2 : - r <= 2 * e <= r) by lia.
+        assert (P : - ((2 * H - a) * r) <= 2 * ((2 * H - a) * e) <= (2 * H - a) * r) by (clear - He2 Ha Hr; nia).
+        rewrite HDy. lia.
+      * assert (He2 : r <= 2 * e /\ e < r) by lia.
+        assert (P : 0 <= (2 * H - a) * e <= (2 * H - a) * r) by (clear - He2 Ha Hr; nia).
+        rewrite HDy. lia.
+    + (* the top edge is on the lattice: e = 0 *)
+      assert (He0 : e = 0).
+      { assert (Hn : - r < (py - N) * r < r) by (unfold e in Hpy; lia).
+        assert (Hpn : py - N = 0) by (clear - Hn Hr; nia). unfold e. replace py with N by lia. lia. }
+      rewrite He0. clearbody a Dy.
+      assert (P : - (a * r) <= 2 * (a * Dy) <= a * r) by (clear - HD Ha Hr; nia).
+      assert (Q : a * r <= 2 * H * r - r) by (clear - Ha Hr; nia). lia.
+Qed.
+
+(* non-vacuity: the border meta tile of ex_cut (buffer cut at 0.7 px at the top, sizes rounded from 266.3 / 266.7) *)
+Example stored_pixel_example :
+  In (Some (8, 8, 3), (10, 1)) (mt_pattern (meta_tile ex_m 8 8 3)) /\
+  tile_pixel_src (10, 1) (256, 256) (mt_size (meta_tile ex_m 8 8 3)) 255 255 = Some (265, 256).
+Proof. vm_compute. split; [right; right; left; reflexivity|reflexivity]. Qed.
